@@ -297,7 +297,132 @@ def fields_readable(tc):
             exp = ("raises", "key")
         if canon(v) != canon(exp):
             bad.append(f)
+    return bad + exports_agree(tc)
+
+
+def export_canon(v):
+    """canonical form of a field value as an EXPORT shows it: non-tensor entries as their payloads, nested
+    collections as the dict they export to"""
+    if isinstance(v, NonTensorData):
+        return canon(v.data)
+    if isinstance(v, NonTensorStack):
+        return canon(v.tolist())
+    if is_tensorclass(v) and not isinstance(v, type) or isinstance(v, TensorDictBase):
+        try:
+            d = v.to_dict()
+        except Exception as e:  # noqa: BLE001
+            return ["to_dict-raises", err_class(e)]
+        return ["dict", sorted(([str(k), export_canon(x)] for k, x in d.items()), key=lambda kv: kv[0])]
+    if isinstance(v, dict):
+        return ["dict", sorted(([str(k), export_canon(x)] for k, x in v.items()), key=lambda kv: kv[0])]
+    return canon(v)
+
+
+def exports_agree(tc):
+    """the property on ONE object, nothing in between: what `to_dict()`, `to_tensordict()` and `items()` of a
+    tensorclass show for a declared field is what reading the attribute shows.  -> list of disagreements"""
+    fields = sorted(type(tc).__expected_keys__)
+    attrs = {}
+    for f in fields:
+        try:
+            attrs[f] = getattr(tc, f)
+        except Exception:  # noqa: BLE001  (unreadable fields are reported by fields_readable itself)
+            pass
+    bad = []
+    with warnings.catch_warnings():
+        warnings.simplefilter("ignore")
+        try:
+            d = tc.to_dict()
+        except Exception as e:  # noqa: BLE001
+            d = None
+            bad.append(f"to_dict():raises:{err_class(e)}")
+        if d is not None:
+            for f, v in attrs.items():
+                if f not in d:
+                    bad.append(f"to_dict():{f}:missing")
+                elif export_canon(v) != export_canon(d[f]):
+                    bad.append(f"to_dict():{f}")
+        try:
+            t = tc.to_tensordict(retain_none=True)
+        except Exception as e:  # noqa: BLE001
+            t = None
+            bad.append(f"to_tensordict():raises:{err_class(e)}")
+        if t is not None:
+            for f, v in attrs.items():
+                got = t.get(f, None)
+                if export_canon(v) != export_canon(got):
+                    bad.append(f"to_tensordict():{f}")
+        try:
+            it = dict(tc.items())
+        except Exception as e:  # noqa: BLE001
+            it = None
+            bad.append(f"items():raises:{err_class(e)}")
+        if it is not None:
+            for f, v in attrs.items():
+                if f in it:
+                    if export_canon(v) != export_canon(it[f]):
+                        bad.append(f"items():{f}")
+                elif v is not None:
+                    bad.append(f"items():{f}:missing")
     return bad
+
+
+def pieces_independent(pieces, receiver):
+    """the tensorclasses of a tuple result are independent instances: none shares its None-placeholder dict
+    with a sibling or with the receiver, and giving a value to a field that reads None on ONE piece leaves the
+    field reading None on every other piece (attribute and to_dict()).  -> None or a short reason.
+    Mutates the pieces: call it last."""
+    tcs = [q for q in pieces if is_tensorclass(q) and not isinstance(q, (type, NonTensorData, NonTensorStack))]
+    if len(tcs) < 2:
+        return None
+    shared = None
+    for i, a in enumerate(tcs):
+        if is_tensorclass(receiver) and a is not receiver and a.__dict__.get("_non_tensordict") is receiver.__dict__.get("_non_tensordict"):
+            shared = shared or f"piece {i} shares its None-placeholder dict with the receiver"
+        for j in range(i + 1, len(tcs)):
+            if a is not tcs[j] and a.__dict__.get("_non_tensordict") is tcs[j].__dict__.get("_non_tensordict"):
+                shared = shared or f"pieces {i} and {j} share one None-placeholder dict"
+    why = _write_one_read_others(tcs)
+    if why:
+        return why + (f" ({shared})" if shared else "")
+    return shared
+
+
+def _write_one_read_others(tcs):
+    first = tcs[0]
+    fields = sorted(type(first).__expected_keys__)
+
+    def reads_none(q, f):
+        try:
+            return getattr(q, f) is None
+        except Exception:  # noqa: BLE001
+            return False
+    for f in fields:
+        if not all(type(q) is type(first) and reads_none(q, f) for q in tcs):
+            continue
+        try:
+            setattr(first, f, torch.zeros(tuple(first.batch_size)))
+        except Exception:  # noqa: BLE001  (frozen / locked pieces: nothing to write)
+            return None
+        if reads_none(first, f):
+            return None
+        for j, q in enumerate(tcs[1:], 1):
+            if q is first or q._tensordict is first._tensordict:
+                continue
+            try:
+                v = getattr(q, f)
+            except Exception as e:  # noqa: BLE001
+                return f"after writing field {f} of piece 0, reading it on piece {j} raises {type(e).__name__}"
+            if v is not None:
+                return f"after writing field {f} of piece 0, piece {j} no longer reads None"
+            try:
+                d = q.to_dict()
+            except Exception as e:  # noqa: BLE001
+                return f"after writing field {f} of piece 0, to_dict() of piece {j} raises {type(e).__name__}"
+            if f not in d or d[f] is not None:
+                return f"after writing field {f} of piece 0, to_dict() of piece {j} no longer reports {f}=None"
+        return None
+    return None
 
 
 def field_view(tc):
